@@ -320,6 +320,15 @@ func (x *Exec) wfLoaded(st *State, v *Val) {
 			switch v.T.Underlying().(type) {
 			case *types.Map, *types.Chan:
 				x.sc.assume(implies(x.guard(st), "(>= "+v.S+" 0)"))
+			case *types.Basic:
+				// a Go int / uint held in memory is a 64-bit machine integer
+				if !x.sc.bvMode && v.Srt == "Int" && isGoInt(v.T) && strings.HasPrefix(v.S, "(select") {
+					if isSigned(v.T) {
+						x.sc.assume(implies(x.guard(st), and("(<= (- 9223372036854775808) "+v.S+")", "(<= "+v.S+" 9223372036854775807)")))
+					} else {
+						x.sc.assume(implies(x.guard(st), and("(<= 0 "+v.S+")", "(<= "+v.S+" 18446744073709551615)")))
+					}
+				}
 			}
 		}
 	}
